@@ -211,10 +211,21 @@ func Point(ready func() bool, label string) {
 }
 
 // Go starts f as a managed goroutine (the rewritten form of a go statement).
+// free-running mode (no scheduler, used by the -race pass): spawned goroutines are tracked so the
+// harness can join them
+var freeWG sync.WaitGroup
+
+// WaitFree joins every goroutine started through Go outside the scheduler.
+func WaitFree() { freeWG.Wait() }
+
 func Go(f func()) {
 	sc := s
 	if sc == nil {
-		go f()
+		freeWG.Add(1)
+		go func() {
+			defer freeWG.Done()
+			f()
+		}()
 		return
 	}
 	n := &g{id: len(sc.gs), wake: make(chan struct{}), label: "spawned"}
